@@ -1,2 +1,362 @@
-(* C03 — placeholder while the proofs are being written *)
-From GV Require Import Common.Num Model.Forward Model.Backprop.
+(* C03 — Every training update follows the true gradient of the regularised objective.
+   Statements only; every proof is [exact <lemma of Proofs/Backprop.v>].
+   Model: Model/Forward.v (the `_infer` methods), Model/Backprop.v (the `_compute_grads` methods, the RIM /
+   KernelRIM penalty terms, the step of `fit`), Model/Mlcl.v (decorate_grads).  Theorems over R (Rops).
+   Vocabulary (Proofs/Backprop.v): [inner n K A B] = sum_{i<n,k<K} A i k * B i k; [lin_pert th dth t] = th + t dth;
+   [X_jvp] = the forward-mode differential of the predictions written out explicitly; [smjvp K Y dZ] =
+   Y o (dZ - <Y,dZ>) row-wise; [pair_pen f idx K Y pairs] = (f/2) sum over the pairs inside the batch of
+   ||Y_a - Y_b||^2; [decorated_gradient] = the upstream gradient after mlcl's in-place decoration.
+   SIGN CONVENTION: the code maximises.  `_compute_grads` returns MINUS the gradient ("negative sign to force
+   the optimiser to maximise"), sklearn's optimisers then descend along what they are handed.  Hence every
+   theorem reads  d/dt objective(theta + t dtheta) |_0 = - <direction handed to the optimiser, dtheta>. *)
+From Coq Require Import Reals List.
+From Coquelicot Require Import Coquelicot.
+From GV Require Import Common.Num Common.NumR Model.Forward Model.Mlcl Model.Backprop.
+From GV Require Import Proofs.RSumLib Proofs.GeminiDefs Proofs.Backprop.
+Import ListNotations.
+Open Scope R_scope.
+
+(* ================================================================== (a) softmax *)
+(* sklearn's softmax subtracts the row maximum; it cancels *)
+Theorem C03_softmax_is_normalised_exp : forall K (z : nat -> R) k, (0 < K)%nat ->
+  softmax_row Rops K z k = exp (z k) / rsum K (fun c => exp (z c)).
+Proof. exact softmax_row_eq. Qed.
+
+(* derivative of softmax_row K (z + t dz) at 0: y_k (dz_k - sum_c y_c dz_c), every K >= 1 *)
+Theorem C03_softmax_jvp : forall K (z dz : nat -> R) k, (0 < K)%nat -> (k < K)%nat ->
+  is_derive (fun t : R => softmax_row Rops K (fun c => z c + t * dz c) k) 0
+            (softmax_row Rops K z k * (dz k - rsum K (fun c => softmax_row Rops K z c * dz c))).
+Proof. exact softmax_jvp. Qed.
+
+(* the same along any differentiable curve of logits (needed for the hidden layer) *)
+Theorem C03_softmax_jvp_curve : forall K (z : nat -> R -> R) (dz : nat -> R) k, (0 < K)%nat -> (k < K)%nat ->
+  (forall c, (c < K)%nat -> is_derive (z c) 0 (dz c)) ->
+  is_derive (fun t : R => softmax_row Rops K (fun c => z c t) k) 0
+            (smjvp_row K (softmax_row Rops K (fun c => z c 0)) dz k).
+Proof. exact softmax_row_derive. Qed.
+
+(* ================================================================== (b) adjoint identities — pure algebra, all shapes *)
+(* back-propagation through the softmax: tau_hat_grad is the adjoint of the softmax differential, for ANY matrix Y *)
+Theorem C03_softmax_adjoint : forall n K (Y g dZ : mat),
+  inner n K g (smjvp K Y dZ) = inner n K (tau_hat Rops K Y g) dZ.
+Proof. exact softmax_adjoint. Qed.
+
+(* LinearModel (also the sparse linear model, which inherits _compute_grads) *)
+Theorem C03_linear_adjoint : forall n d K (X : mat) (th : @LinP R) (g : mat) (dth : @LinP R),
+  inner n K g (linear_jvp d K X th dth) = - inner_lin d K (linear_step_grads Rops n d K th X g) dth.
+Proof. exact linear_adjoint. Qed.
+
+(* RIM / KernelRIM: the handed direction is the linear one plus 2 reg W, resp. 2 reg Kt W (whole training kernel) *)
+Theorem C03_rim_adjoint : forall n d K reg (X : mat) (th : @LinP R) (g : mat) (dth : @LinP R),
+  inner n K g (linear_jvp d K X th dth) - inner d K (fun j k => 2 * reg * lW th j k) (lW dth)
+  = - inner_lin d K (rim_step_grads Rops n d K reg th X g) dth.
+Proof. exact rim_adjoint. Qed.
+Theorem C03_kernel_rim_adjoint : forall n nt K reg (Kt X : mat) (th : @LinP R) (g : mat) (dth : @LinP R),
+  inner n K g (linear_jvp nt K X th dth)
+  - inner nt K (fun j k => 2 * reg * rsum nt (fun l => Kt j l * lW th l k)) (lW dth)
+  = - inner_lin nt K (kernel_rim_step_grads Rops n nt K reg Kt th X g) dth.
+Proof. exact kernel_rim_adjoint. Qed.
+
+(* MLPModel — DESIGN Appendix A verbatim; the algebra holds with or without the off-kink hypothesis *)
+Theorem C03_mlp_adjoint : forall n d h K X th g dth,
+  relu_off_kink n h (preact d X th) ->
+  inner n K g (mlp_jvp n d h K X th dth) = - inner_mlp d h K (mlp_step_grads Rops n d h K th X g) dth.
+Proof. exact mlp_adjoint. Qed.
+Theorem C03_mlp_adjoint_any_state : forall n d h K (X Y g : mat) (th dth : @MlpP R),
+  inner n K g (smjvp K Y (mlp_dlogits d h X th dth))
+  = - inner_mlp d h K (mlp_compute_grads Rops n K (mW2 th) (mlp_hidden Rops d h (mW1 th) (mb1 th) X) X Y g) dth.
+Proof. exact mlp_adjoint_any. Qed.
+
+(* SparseMLPModel (skip connection) *)
+Theorem C03_sparse_mlp_adjoint : forall n d h K X th g dth,
+  inner n K g (sparse_mlp_jvp n d h K X th dth) = - inner_smlp d h K (sparse_mlp_step_grads Rops n d h K th X g) dth.
+Proof. exact sparse_mlp_adjoint. Qed.
+
+(* CategoricalModel *)
+Theorem C03_categorical_adjoint : forall n K (L g dL : mat),
+  inner n K g (categorical_jvp K L dL) = - inner n K (categorical_step_grads Rops K L g) dL.
+Proof. exact categorical_adjoint. Qed.
+
+(* Douglas: leaf scores and every feature's cut points simultaneously; any number of cuts, any sort order
+   (argsort un-permutation), guarded division by the bin memberships (no positivity assumed on them) *)
+Theorem C03_douglas_adjoint : forall n F c K temp (Sc leafm : mat) (bins : nat -> mat) (orders : nat -> list nat)
+  (Y g dS : mat) (dcs : nat -> nat -> R),
+  temp <> 0 -> (forall f, (f < F)%nat -> is_order c (orders f)) ->
+  (forall i l, (i < n)%nat -> (l < (c + 1) ^ F)%nat -> leafm i l = leaf_prod F (c + 1) bins i l) ->
+  let grads := douglas_compute_grads Rops n F c K temp Sc leafm bins orders Y g in
+  inner n K g (douglas_jvp F c K temp Sc leafm bins orders Y dS dcs)
+  = - (inner ((c + 1) ^ F) K (fst grads) dS + rsum F (fun f => inner_vec c (snd grads f) (dcs f))).
+Proof. exact douglas_adjoint. Qed.
+
+(* ================================================================== (b') the direction is minus the gradient *)
+Theorem C03_linear_direction_is_gradient : forall n d K (X : mat) (th dth : @LinP R) (g : mat), (0 < K)%nat ->
+  is_derive (fun t : R => inner n K g (linear_infer_p Rops d K (lin_pert th dth t) X)) 0
+            (- inner_lin d K (linear_step_grads Rops n d K th X g) dth).
+Proof. exact linear_direction_is_gradient. Qed.
+
+(* RIM: objective MI - reg ||W||^2 (the penalty is added in _update_weights, before update_params) *)
+Theorem C03_rim_direction_is_gradient : forall n d K reg (X : mat) (th dth : @LinP R) (g : mat), (0 < K)%nat ->
+  is_derive (fun t : R => inner n K g (linear_infer_p Rops d K (lin_pert th dth t) X)
+                          - reg * sqnorm d K (lW (lin_pert th dth t))) 0
+            (- inner_lin d K (rim_step_grads Rops n d K reg th X g) dth).
+Proof. exact rim_direction_is_gradient. Qed.
+
+(* KernelRIM: objective MI(batch rows of the kernel) - reg tr(W^T Kt W) with the FULL symmetric training kernel Kt,
+   whatever n x nt block X of kernel rows the batch holds *)
+Theorem C03_kernel_rim_direction_is_gradient : forall n nt K reg (Kt X : mat) (th dth : @LinP R) (g : mat),
+  (0 < K)%nat -> sym_on nt Kt ->
+  is_derive (fun t : R => inner n K g (linear_infer_p Rops nt K (lin_pert th dth t) X)
+                          - reg * trWKW nt K Kt (lW (lin_pert th dth t))) 0
+            (- inner_lin nt K (kernel_rim_step_grads Rops n nt K reg Kt th X g) dth).
+Proof. exact kernel_rim_direction_is_gradient. Qed.
+
+(* MLP, sparse MLP: off the ReLU kink (no pre-activation of the batch exactly 0) *)
+Theorem C03_mlp_direction_is_gradient : forall n d h K (X : mat) (th dth : @MlpP R) (g : mat), (0 < K)%nat ->
+  relu_off_kink n h (preact d X th) ->
+  is_derive (fun t : R => inner n K g (mlp_infer_p Rops d h K (mlp_pert th dth t) X)) 0
+            (- inner_mlp d h K (mlp_step_grads Rops n d h K th X g) dth).
+Proof. exact mlp_direction_is_gradient. Qed.
+Theorem C03_sparse_mlp_direction_is_gradient : forall n d h K (X : mat) (th dth : @SMlpP R) (g : mat), (0 < K)%nat ->
+  relu_off_kink n h (preact d X (smlp_core th)) ->
+  is_derive (fun t : R => inner n K g (sparse_mlp_infer_p Rops d h K (smlp_pert th dth t) X)) 0
+            (- inner_smlp d h K (sparse_mlp_step_grads Rops n d h K th X g) dth).
+Proof. exact sparse_mlp_direction_is_gradient. Qed.
+
+Theorem C03_categorical_direction_is_gradient : forall n K (L dL g : mat), (0 < K)%nat ->
+  is_derive (fun t : R => inner n K g (categorical_infer Rops K (fun i k => L i k + t * dL i k))) 0
+            (- inner n K (categorical_step_grads Rops K L g) dL).
+Proof. exact categorical_direction_is_gradient. Qed.
+
+(* Douglas, leaf scores *)
+Theorem C03_douglas_leaf_direction_is_gradient : forall n F c K temp (Sc dS leafm : mat) (bins : nat -> mat)
+  (orders : nat -> list nat) (g : mat), (0 < K)%nat ->
+  is_derive (fun t : R => inner n K g (softmax Rops K (matmul Rops ((c + 1) ^ F) leafm (fun l k => Sc l k + t * dS l k)))) 0
+            (- inner ((c + 1) ^ F) K
+                 (fst (douglas_compute_grads Rops n F c K temp Sc leafm bins orders
+                         (softmax Rops K (matmul Rops ((c + 1) ^ F) leafm Sc)) g)) dS).
+Proof. exact douglas_leaf_direction_is_gradient. Qed.
+
+(* Douglas, cut points of one feature.  PARTIAL: the sort order of the cut points is held fixed along the
+   perturbation (it is locally constant when the cut points are pairwise distinct; that step — and the
+   identification of this function-style forward pass with Model/Douglas.v's list-style one — is not proved;
+   both are covered by the correspondence and the finite-difference oracle).  [rest] stands for the product of
+   the other features' bin memberships. *)
+Theorem C03_douglas_cut_direction_is_gradient_partial : forall n F c K f temp (Sc rest : mat) (x : nat -> R)
+  (order : list nat) (cuts dc : nat -> R) (g : mat),
+  (0 < K)%nat -> temp <> 0 -> is_order c order ->
+  let B := (c + 1)%nat in let L := (B ^ F)%nat in
+  let binf := fun cu => dg_bins_fixed B temp x order cu in
+  let leaff := fun cu i l => binf cu i (digit F B f l) * rest i l in
+  let Yf := fun cu => softmax Rops K (matmul Rops L (leaff cu) Sc) in
+  is_derive (fun t : R => inner n K g (Yf (fun p => cuts p + t * dc p))) 0
+            (- inner_vec c (dg_cut_direction Rops n F c L K f temp Sc (leaff cuts) (binf cuts) order
+                              (tau_hat Rops K (Yf cuts) g)) dc).
+Proof. exact douglas_cut_direction_is_gradient_fixed_order. Qed.
+
+(* The genuine, not linearised, objective: if obj (the GEMINI) is differentiable at the predictions with gradient g
+   along every differentiable curve through them, the direction is minus the gradient of obj o infer.  The
+   hypothesis is met by linear functionals and is preserved by the mlcl decoration (second theorem). *)
+Theorem C03_linear_objective_direction_is_gradient : forall n d K (obj : mat -> R) (X : mat) (th dth : @LinP R) (g : mat),
+  (0 < K)%nat -> curve_differentiable n K obj (linear_infer_p Rops d K th X) g ->
+  is_derive (fun t : R => obj (linear_infer_p Rops d K (lin_pert th dth t) X)) 0
+            (- inner_lin d K (linear_step_grads Rops n d K th X g) dth).
+Proof. exact linear_objective_direction_is_gradient. Qed.
+Theorem C03_mlp_objective_direction_is_gradient : forall n d h K (obj : mat -> R) (X : mat) (th dth : @MlpP R) (g : mat),
+  (0 < K)%nat -> relu_off_kink n h (preact d X th) ->
+  curve_differentiable n K obj (mlp_infer_p Rops d h K th X) g ->
+  is_derive (fun t : R => obj (mlp_infer_p Rops d h K (mlp_pert th dth t) X)) 0
+            (- inner_mlp d h K (mlp_step_grads Rops n d h K th X g) dth).
+Proof. exact mlp_objective_direction_is_gradient. Qed.
+Theorem C03_decoration_preserves_differentiability : forall f idx n K (obj : mat -> R) (Y0 g : mat) ml cl,
+  length idx = n -> curve_differentiable n K obj Y0 g ->
+  curve_differentiable n K (fun Y => obj Y + pair_pen f idx K Y cl - pair_pen f idx K Y ml) Y0
+    (decorated_gradient Rops f idx n K Y0 ml cl g).
+Proof. exact curve_differentiable_decorated. Qed.
+
+(* ================================================================== (c) penalties *)
+Theorem C03_penalty_l2 : forall d K reg (W dW : mat),
+  is_derive (fun t : R => reg * sqnorm d K (fun j k => W j k + t * dW j k)) 0
+            (inner d K (fun j k => 2 * reg * W j k) dW).
+Proof. exact penalty_l2_derive. Qed.
+Theorem C03_penalty_kernel : forall nt K reg (Kt W dW : mat), sym_on nt Kt ->
+  is_derive (fun t : R => reg * trWKW nt K Kt (fun j k => W j k + t * dW j k)) 0
+            (inner nt K (fun j k => 2 * reg * rsum nt (fun l => Kt j l * W l k)) dW).
+Proof. exact penalty_kernel_derive. Qed.
+
+(* ================================================================== (d) must-link / cannot-link decoration *)
+(* If G is the gradient of the objective w.r.t. the predictions along the curve Yc (Yc 0 = Y0, derivative D), the
+   gradient after decoration is that of
+        objective + (factor/2) sum_{CL in batch} ||y_a - y_b||^2 - (factor/2) sum_{ML in batch} ||y_a - y_b||^2.
+   (The code adds +factor (y_a - y_b) for cannot-link and -factor (y_a - y_b) for must-link to the GEMINI's gradient and
+   `_compute_grads` negates afterwards: the descent step increases the GEMINI, separates cannot-link pairs and
+   brings must-link pairs together.)  idx = true sample indices of the batch rows; pairs not wholly inside
+   the batch contribute nothing (Props/C14.v::C14_pair_outside_batch_inert). *)
+Theorem C03_mlcl_decorated_gradient : forall f idx n K (obj : mat -> R) (Yc : R -> mat) (Y0 G D : mat) ml cl,
+  length idx = n ->
+  (forall i k, (i < n)%nat -> (k < K)%nat -> Yc 0 i k = Y0 i k) ->
+  (forall i k, (i < n)%nat -> (k < K)%nat -> is_derive (fun t : R => Yc t i k) 0 (D i k)) ->
+  is_derive (fun t : R => obj (Yc t)) 0 (inner n K G D) ->
+  is_derive (fun t : R => obj (Yc t) + pair_pen f idx K (Yc t) cl - pair_pen f idx K (Yc t) ml) 0
+            (inner n K (decorated_gradient Rops f idx n K Y0 ml cl G) D).
+Proof. exact mlcl_decorated_gradient. Qed.
+
+(* composed with the backward passes *)
+Theorem C03_linear_decorated_direction_is_gradient : forall n d K f idx (X : mat) (th dth : @LinP R) (g : mat) ml cl,
+  (0 < K)%nat -> length idx = n ->
+  is_derive (fun t : R => inner n K g (linear_infer_p Rops d K (lin_pert th dth t) X)
+                          + pair_pen f idx K (linear_infer_p Rops d K (lin_pert th dth t) X) cl
+                          - pair_pen f idx K (linear_infer_p Rops d K (lin_pert th dth t) X) ml) 0
+            (- inner_lin d K (linear_step_grads Rops n d K th X
+                                (decorated_gradient Rops f idx n K (linear_infer_p Rops d K th X) ml cl g)) dth).
+Proof. exact linear_decorated_direction_is_gradient. Qed.
+Theorem C03_rim_decorated_direction_is_gradient : forall n d K reg f idx (X : mat) (th dth : @LinP R) (g : mat) ml cl,
+  (0 < K)%nat -> length idx = n ->
+  is_derive (fun t : R => inner n K g (linear_infer_p Rops d K (lin_pert th dth t) X)
+                          + pair_pen f idx K (linear_infer_p Rops d K (lin_pert th dth t) X) cl
+                          - pair_pen f idx K (linear_infer_p Rops d K (lin_pert th dth t) X) ml
+                          - reg * sqnorm d K (lW (lin_pert th dth t))) 0
+            (- inner_lin d K (rim_step_grads Rops n d K reg th X
+                                (decorated_gradient Rops f idx n K (linear_infer_p Rops d K th X) ml cl g)) dth).
+Proof. exact rim_decorated_direction_is_gradient. Qed.
+Theorem C03_kernel_rim_decorated_direction_is_gradient : forall n nt K reg f idx (Kt X : mat) (th dth : @LinP R) (g : mat) ml cl,
+  (0 < K)%nat -> length idx = n -> sym_on nt Kt ->
+  is_derive (fun t : R => inner n K g (linear_infer_p Rops nt K (lin_pert th dth t) X)
+                          + pair_pen f idx K (linear_infer_p Rops nt K (lin_pert th dth t) X) cl
+                          - pair_pen f idx K (linear_infer_p Rops nt K (lin_pert th dth t) X) ml
+                          - reg * trWKW nt K Kt (lW (lin_pert th dth t))) 0
+            (- inner_lin nt K (kernel_rim_step_grads Rops n nt K reg Kt th X
+                                 (decorated_gradient Rops f idx n K (linear_infer_p Rops nt K th X) ml cl g)) dth).
+Proof. exact kernel_rim_decorated_direction_is_gradient. Qed.
+Theorem C03_mlp_decorated_direction_is_gradient : forall n d h K f idx (X : mat) (th dth : @MlpP R) (g : mat) ml cl,
+  (0 < K)%nat -> length idx = n -> relu_off_kink n h (preact d X th) ->
+  is_derive (fun t : R => inner n K g (mlp_infer_p Rops d h K (mlp_pert th dth t) X)
+                          + pair_pen f idx K (mlp_infer_p Rops d h K (mlp_pert th dth t) X) cl
+                          - pair_pen f idx K (mlp_infer_p Rops d h K (mlp_pert th dth t) X) ml) 0
+            (- inner_mlp d h K (mlp_step_grads Rops n d h K th X
+                                  (decorated_gradient Rops f idx n K (mlp_infer_p Rops d h K th X) ml cl g)) dth).
+Proof. exact mlp_decorated_direction_is_gradient. Qed.
+Theorem C03_sparse_mlp_decorated_direction_is_gradient : forall n d h K f idx (X : mat) (th dth : @SMlpP R) (g : mat) ml cl,
+  (0 < K)%nat -> length idx = n -> relu_off_kink n h (preact d X (smlp_core th)) ->
+  is_derive (fun t : R => inner n K g (sparse_mlp_infer_p Rops d h K (smlp_pert th dth t) X)
+                          + pair_pen f idx K (sparse_mlp_infer_p Rops d h K (smlp_pert th dth t) X) cl
+                          - pair_pen f idx K (sparse_mlp_infer_p Rops d h K (smlp_pert th dth t) X) ml) 0
+            (- inner_smlp d h K (sparse_mlp_step_grads Rops n d h K th X
+                                   (decorated_gradient Rops f idx n K (sparse_mlp_infer_p Rops d h K th X) ml cl g)) dth).
+Proof. exact sparse_mlp_decorated_direction_is_gradient. Qed.
+Theorem C03_categorical_decorated_direction_is_gradient : forall n K f idx (L dL g : mat) ml cl,
+  (0 < K)%nat -> length idx = n ->
+  is_derive (fun t : R => inner n K g (categorical_infer Rops K (fun i k => L i k + t * dL i k))
+                          + pair_pen f idx K (categorical_infer Rops K (fun i k => L i k + t * dL i k)) cl
+                          - pair_pen f idx K (categorical_infer Rops K (fun i k => L i k + t * dL i k)) ml) 0
+            (- inner n K (categorical_step_grads Rops K L
+                            (decorated_gradient Rops f idx n K (categorical_infer Rops K L) ml cl g)) dL).
+Proof. exact categorical_decorated_direction_is_gradient. Qed.
+
+(* ================================================================== (e) row discipline — every number system *)
+(* The batch is the rows 0..n-1 of the (total) matrices.  Changing the data or the upstream gradient on any other
+   row changes no direction: every direction is a sum over the batch's rows only. *)
+Theorem C03_linear_row_discipline : forall (T : Type) (o : NumOps T) n d K (p : @LinP T) X X' G G',
+  rows_agree n X X' -> rows_agree n G G' ->
+  (forall j k, lW (linear_step_grads o n d K p X G) j k = lW (linear_step_grads o n d K p X' G') j k) /\
+  (forall k, lb (linear_step_grads o n d K p X G) k = lb (linear_step_grads o n d K p X' G') k).
+Proof. exact @linear_row_discipline. Qed.
+Theorem C03_rim_row_discipline : forall (T : Type) (o : NumOps T) n d K reg (p : @LinP T) X X' G G',
+  rows_agree n X X' -> rows_agree n G G' ->
+  (forall j k, lW (rim_step_grads o n d K reg p X G) j k = lW (rim_step_grads o n d K reg p X' G') j k) /\
+  (forall k, lb (rim_step_grads o n d K reg p X G) k = lb (rim_step_grads o n d K reg p X' G') k).
+Proof. exact @rim_row_discipline. Qed.
+Theorem C03_kernel_rim_row_discipline : forall (T : Type) (o : NumOps T) n nt K reg Kt (p : @LinP T) X X' G G',
+  rows_agree n X X' -> rows_agree n G G' ->
+  (forall j k, lW (kernel_rim_step_grads o n nt K reg Kt p X G) j k = lW (kernel_rim_step_grads o n nt K reg Kt p X' G') j k) /\
+  (forall k, lb (kernel_rim_step_grads o n nt K reg Kt p X G) k = lb (kernel_rim_step_grads o n nt K reg Kt p X' G') k).
+Proof. exact @kernel_rim_row_discipline. Qed.
+Theorem C03_mlp_row_discipline : forall (T : Type) (o : NumOps T) n d h K (p : @MlpP T) X X' G G',
+  rows_agree n X X' -> rows_agree n G G' ->
+  let a := mlp_step_grads o n d h K p X G in let b := mlp_step_grads o n d h K p X' G' in
+  (forall j' j, mW1 a j' j = mW1 b j' j) /\ (forall j k, mW2 a j k = mW2 b j k) /\
+  (forall j, mb1 a j = mb1 b j) /\ (forall k, mb2 a k = mb2 b k).
+Proof. exact @mlp_row_discipline. Qed.
+Theorem C03_sparse_mlp_row_discipline : forall (T : Type) (o : NumOps T) n d h K (p : @SMlpP T) X X' G G',
+  rows_agree n X X' -> rows_agree n G G' ->
+  let a := sparse_mlp_step_grads o n d h K p X G in let b := sparse_mlp_step_grads o n d h K p X' G' in
+  (forall j' j, sW1 a j' j = sW1 b j' j) /\ (forall j k, sW2 a j k = sW2 b j k) /\ (forall j k, sWskip a j k = sWskip b j k) /\
+  (forall j, sb1 a j = sb1 b j) /\ (forall k, sb2 a k = sb2 b k).
+Proof. exact @sparse_mlp_row_discipline. Qed.
+Theorem C03_categorical_row_discipline : forall (T : Type) (o : NumOps T) n K L L' G G',
+  rows_agree n L L' -> rows_agree n G G' ->
+  rows_agree n (categorical_step_grads o K L G) (categorical_step_grads o K L' G').
+Proof. exact @categorical_row_discipline. Qed.
+
+(* No parameter's direction involves another parameter's gradient: the adjoint identity determines every entry of
+   the direction, so anything satisfying it for all parameter directions IS the model's direction. *)
+Theorem C03_linear_direction_unique : forall n d K (X : mat) (th cand : @LinP R) (g : mat),
+  (forall dth, inner n K g (linear_jvp d K X th dth) = - inner_lin d K cand dth) ->
+  (forall j k, (j < d)%nat -> (k < K)%nat -> lW cand j k = lW (linear_step_grads Rops n d K th X g) j k) /\
+  (forall k, (k < K)%nat -> lb cand k = lb (linear_step_grads Rops n d K th X g) k).
+Proof. exact linear_direction_unique. Qed.
+Theorem C03_mlp_direction_unique : forall n d h K (X : mat) (th cand : @MlpP R) (g : mat),
+  (forall dth, inner n K g (mlp_jvp n d h K X th dth) = - inner_mlp d h K cand dth) ->
+  let m := mlp_step_grads Rops n d h K th X g in
+  (forall j' j, (j' < d)%nat -> (j < h)%nat -> mW1 cand j' j = mW1 m j' j) /\
+  (forall j k, (j < h)%nat -> (k < K)%nat -> mW2 cand j k = mW2 m j k) /\
+  (forall j, (j < h)%nat -> mb1 cand j = mb1 m j) /\ (forall k, (k < K)%nat -> mb2 cand k = mb2 m k).
+Proof. exact mlp_direction_unique. Qed.
+
+(* ================================================================== non-vacuity *)
+(* a concrete MLP state off the ReLU kink (pre-activations 3/2, -1/2, -3/2, 5/2), a sort order of two cut
+   points, a symmetric kernel and a batch index list — the hypotheses of the theorems above are satisfiable,
+   and the pre-fix back-propagation formula (through W2_grad instead of W2_) does violate the adjoint identity *)
+Example C03_nonvacuous :
+  (let X : mat := fun i _ => match i with O => 1 | _ => -2 end in
+   let th : @MlpP R := {| mW1 := fun _ j => match j with O => 1 | _ => -1 end; mW2 := fun _ _ => 1;
+                          mb1 := fun _ => /2; mb2 := fun _ => 0 |} in
+   relu_off_kink 2 2 (preact 1 X th)) /\
+  is_order 2 [1; 0]%nat /\ sym_on 2 (fun j l => INR (j + l)) /\ length [7; 3; 11]%nat = 3%nat /\
+  prefix_mlp_formula_violates_adjoint.
+Proof. exact nonvacuous_witness. Qed.
+
+(* Print Assumptions costs ~2 s per real-analysis theorem (the whole Reals/Coquelicot closure is traversed each
+   time), so the 34 theorems over R are audited through one bundle naming every one of them; the 6 theorems
+   that hold in every number system are audited one by one and are closed under the global context. *)
+Definition C03_all_theorems_over_R :=
+  (C03_softmax_is_normalised_exp,
+   C03_softmax_jvp,
+   C03_softmax_jvp_curve,
+   C03_softmax_adjoint,
+   C03_linear_adjoint,
+   C03_rim_adjoint,
+   C03_kernel_rim_adjoint,
+   C03_mlp_adjoint,
+   C03_mlp_adjoint_any_state,
+   C03_sparse_mlp_adjoint,
+   C03_categorical_adjoint,
+   C03_douglas_adjoint,
+   C03_linear_direction_is_gradient,
+   C03_rim_direction_is_gradient,
+   C03_kernel_rim_direction_is_gradient,
+   C03_mlp_direction_is_gradient,
+   C03_sparse_mlp_direction_is_gradient,
+   C03_categorical_direction_is_gradient,
+   C03_douglas_leaf_direction_is_gradient,
+   C03_douglas_cut_direction_is_gradient_partial,
+   C03_linear_objective_direction_is_gradient,
+   C03_mlp_objective_direction_is_gradient,
+   C03_decoration_preserves_differentiability,
+   C03_penalty_l2,
+   C03_penalty_kernel,
+   C03_mlcl_decorated_gradient,
+   C03_linear_decorated_direction_is_gradient,
+   C03_rim_decorated_direction_is_gradient,
+   C03_kernel_rim_decorated_direction_is_gradient,
+   C03_mlp_decorated_direction_is_gradient,
+   C03_sparse_mlp_decorated_direction_is_gradient,
+   C03_categorical_decorated_direction_is_gradient,
+   C03_linear_direction_unique,
+   C03_mlp_direction_unique).
+Print Assumptions C03_all_theorems_over_R.
+Print Assumptions C03_linear_row_discipline.
+Print Assumptions C03_rim_row_discipline.
+Print Assumptions C03_kernel_rim_row_discipline.
+Print Assumptions C03_mlp_row_discipline.
+Print Assumptions C03_sparse_mlp_row_discipline.
+Print Assumptions C03_categorical_row_discipline.
